@@ -55,7 +55,7 @@ def gen_cases(rng, tier):
         for npart in parts:
             if npart > T - 1:  # Trajectory.split needs n_parts <= frames - 1 (it never uses the last frame); beyond that
                 continue       # pymatgen cannot build an empty trajectory (error exit, outside the property's domain)
-            cases.append({'outer': outer, 'inner': inner, 'n_parts': npart, 'mr': rng.choice([0, 0, 1, 2]),
+            cases.append({'outer': outer, 'inner': inner, 'n_parts': npart, 'mr': rng.choice([0, 0, 1, 2, 3, 5, 8]),
                           'tlen': max(npart + 1, rng.choice([T, T + 1, 2 * T + 3, 57, 100]))})
     return cases
 
@@ -105,13 +105,20 @@ def impl(case):
     try:
         whole = Jumps(tr, minimal_residence=case['mr'])
         out['n_whole'] = int(whole.n_jumps)
-        if ok:
-            sp = whole.split(case['n_parts'])
-            out['jsplit_n'] = [int(p.n_jumps) for p in sp]
     except ValueError as e:
         if 'No jumps found' not in str(e):
             raise
         out['n_whole'] = 0
+        whole = None
+    if whole is not None:
+        try:
+            sp = whole.split(case['n_parts'])
+            out['jsplit_n'] = [int(p.n_jumps) for p in sp]
+            out['jsplit_mr'] = [int(p.minimal_residence) for p in sp]
+        except ValueError as e:
+            if 'No jumps found' not in str(e):
+                raise
+            out['jsplit_raises'] = True      # some part has no jumps (accepted, see ASSUMPTIONS); must agree with the per-part construction
     # Trajectory.split
     L = case['tlen']
     c2 = np.zeros((L, 1, 3))
@@ -169,7 +176,11 @@ def oracle(case, out):
             fs.append(('split/equal-parts-content', 'equal part is not a prefix of the part'))
             break
     if 'jsplit_n' in out and out['jsplit_n'] != [len(p) for p in out['jp']]:
-        fs.append(('split/jumps-split', 'Jumps.split differs from Jumps of Transitions.split'))
+        fs.append(('split/jumps-split', f'Jumps.split gives {out["jsplit_n"]} jumps per part, Jumps(part, minimal_residence={case["mr"]}) of Transitions.split gives {[len(p) for p in out["jp"]]}'))
+    if 'jsplit_mr' in out and any(v != case['mr'] for v in out['jsplit_mr']):
+        fs.append(('split/jumps-split-settings', f'the parts of Jumps.split use minimal_residence {out["jsplit_mr"]}, the whole uses {case["mr"]}'))
+    if out.get('jsplit_raises') and all(len(p) > 0 for p in out['jp']):
+        fs.append(('split/jumps-split', 'Jumps.split raises "No jumps found" although every part has jumps under the settings of the whole'))
     return fs
 
 
